@@ -17,7 +17,8 @@ from sa.taint import run_roles, split_items, split_args, int_equiv
 
 # callees whose RESULT no longer exposes the key (encryption / key wrap), and callees the key may merely be handed to
 SANITIZERS = ('encrypt_sk', 'encrypt', '_encrypt', 'aes_key_wrap', 'cipher', 'Cipher', 'encfn')
-CARRIERS = SANITIZERS + ('derive_key', 'sum', 'bytearray', 'bytes', 'int_to_bytes', 'update', 'len', 'padder', 'PKCS7', 'MPI', 'bytes_to_int')
+CARRIERS = SANITIZERS + ('derive_key', 'sum', 'bytearray', 'bytes', 'int_to_bytes', 'update', 'len', 'padder', 'PKCS7', 'MPI', 'bytes_to_int',
+                         'divmod', 'reduce', 'to_bytes', 'partial')
 BITS = [64, 128, 192, 256]
 
 
@@ -50,7 +51,9 @@ def check_sources(rep, prog):
         rep.saw(fn=f)
         outs = run_roles(prog, f, ('self',))
         for s in outs:
-            r = taint.qualify_urandom(render(s.ret), f.module)
+            r = taint.qualify_imports(render(s.ret), f.module)
+            if size == 'block_size':
+                r = r.replace('self.cipher.block_size', 'self.block_size')       # block_size IS the bound cipher's (checked with the cipher tables)
             exp = 'os.urandom((self.%s // 8))' % size
             c = split_args(r)
             ok = s.raised is None and c is not None and c[0] == 'os.urandom' and len(c[1]) == 1 and \
@@ -77,8 +80,11 @@ def check_sources(rep, prog):
                     d = dotted(t) or ''
                     if d in ('os.urandom', 'urandom') or d.endswith('.gen_key') or d.endswith('.gen_iv') or d.endswith('.generate'):
                         rep.violation('C13.1', m.relpath, ast.unparse(n), 'an entropy source is rebound', where='%s:%d' % (m.relpath, n.lineno))
-            if isinstance(n, ast.Call) and (dotted(n.func) or '').split('.')[-1] == 'urandom':
-                n_urandom += 1
+            if (isinstance(n, ast.Attribute) and n.attr == 'urandom' and isinstance(n.ctx, ast.Load)) or \
+                    (isinstance(n, ast.Name) and n.id == 'urandom' and isinstance(n.ctx, ast.Load)) or \
+                    (isinstance(n, ast.Call) and dotted(n.func) == 'getattr' and len(n.args) >= 2 and isinstance(n.args[1], ast.Constant) and
+                     n.args[1].value == 'urandom'):
+                n_urandom += 1          # a use of the OS source (called directly, through a local alias or getattr)
     for fn in prog.all_functions():
         for d in fn.node.decorator_list:
             dn = dotted(d.func if isinstance(d, ast.Call) else d) or ''
@@ -152,7 +158,7 @@ def check_session_key(rep, prog):
                               scenario=scen)
                 else:
                     # one draw of the data cipher's key size: both packets get THE key, not two equal-looking ones
-                    ok = taint.fresh_draw(taint.qualify_urandom(k_data, fi.module)) == ('key', alg_data) and taint.n_draws(d['state']) == 1
+                    ok = taint.fresh_draw(taint.qualify_imports(k_data, fi.module)) == ('key', alg_data) and taint.n_draws(d['state']) == 1
                     rep.check(ok, 'C13.2', construct, '%s: session key = %s' % (scen, k_data),
                               'when no session key is supplied it must be <cipher>.gen_key() of the cipher the data is encrypted with, '
                               'generated inside this call', where=fi.where, expected='%s.gen_key()' % alg_data, found=k_data, scenario=scen)
@@ -203,7 +209,7 @@ def check_seipd_prefix(rep, prog):
             continue
         a = list(enc[0][1])
         its = split_items(a[0]) if a else []
-        its = [taint.qualify_urandom(x, fi.module) for x in its]
+        its = [taint.qualify_imports(x, fi.module) for x in its]
         rep.check(taint.random_prefix(its, 'alg', 'data') is not None and len(its) > 3 and taint.n_draws(s) == 1, 'C13.2', W,
                   'plaintext %s' % ' '.join(its)[:80],
                   'the plaintext must start with a fresh random block of the cipher in use, its last two octets repeated',
@@ -221,7 +227,7 @@ def check_keyblob(rep, prog):
         iv = [v for p, v, l, _ in s.stores if p == 'self.s2k.iv']
         salt = [v for p, v, l, _ in s.stores if p == 'self.s2k.salt']
         alg = [v for p, v, l, _ in s.stores if p == 'self.s2k.encalg']
-        iv = [taint.qualify_urandom(x, fi.module) for x in iv]
+        iv = [taint.qualify_imports(x, fi.module) for x in iv]
         rep.check(len(iv) == 1 and taint.fresh_draw(iv[0]) == ('iv', 'enc_alg') and alg == ['enc_alg'] and taint.n_draws(s) == 2, 'C13.2',
                   'PrivKey.encrypt_keyblob',
                   'iv = %s (cipher %s)' % (iv, alg),
@@ -234,7 +240,7 @@ def check_keyblob(rep, prog):
                   'S2K specifier %s' % spec, 'key protection must use a salted S2K so that the fresh salt takes effect', where=fi.where,
                   expected='String2KeyType.Iterated', found=spec)
         enc = taint.calls_named(s, '_encrypt')
-        ok = len(enc) == 1 and len(enc[0][1]) == 4 and not enc[0][2] and [taint.qualify_urandom(enc[0][1][3], fi.module)] == iv and \
+        ok = len(enc) == 1 and len(enc[0][1]) == 4 and not enc[0][2] and [taint.qualify_imports(enc[0][1][3], fi.module)] == iv and \
             enc[0][1][2] == 'enc_alg'
         rep.check(ok, 'C13.2', 'PrivKey.encrypt_keyblob', '_encrypt(%s)' % (enc[0][1][1:] if enc else None),
                   'the secret material must be encrypted under the IV that is stored with the key', where=fi.where,
